@@ -428,7 +428,9 @@ func famJSON(dir string, seed int64, tier string) {
 		}
 	}
 	// syntactically broken documents: must be errors (Go oracle only)
-	broken := []string{"[1,2", "{\"a\":1", "[1 2]", "{\"a\" 1}", "{a:1}", "[1,]", "tru", "\"abc", "[}", "{]", "nul", "-", "1e", "[1,2]]", "{\"a\":1}}", "\"\\u12\"", "[\"a\",", "{\"a\":", "{\"a\"", "01", "+1", ".5", "[", "{", ""}
+	broken := []string{"[1,2", "{\"a\":1", "[1 2]", "{\"a\" 1}", "{a:1}", "[1,]", "tru", "\"abc", "[}", "{]", "nul", "-", "1e", "[1,2]]", "{\"a\":1}}", "\"\\u12\"", "[\"a\",", "{\"a\":", "{\"a\"", "01", "+1", ".5", "[", "{", "",
+		// a byte order mark is not JSON (encoding/json and json.Valid reject it), nor are other leading marks
+		"\xef\xbb\xbf42", "\xef\xbb\xbf{\"a\":1}", "\xef\xbb\xbf [1]", "\xfe\xff[1]", "\xff\xfe[1]", "\x00[1]", "\xef\xbb[1]", "[1]\xef\xbb\xbf", "\xef\xbb\xbf\xef\xbb\xbf1"}
 	for _, text := range broken {
 		ts, err := decodeJSONImpl(text)
 		rep.Evaluations++
